@@ -91,7 +91,7 @@ class Profile:
 GENERAL = Profile()
 WIDE_SIZES = [12, 17, 20, 33, 40, 51, 65, 101, 130, 300]
 ODD_LABELS = ['{}', '{0}', '{x}', "awk '{print $1}'", '%s %d', '100%', 'a "quoted" one',
-              'two\nlines', '', ' ', 'é→中', '${HOME}', '}{', 'x' * 60]
+              'two\nlines', '', ' ', 'é→中', '${HOME}', '}{', 'x' * 60, 0, 7, ('a', 1)]
 EXC_NAMES = ['TimeoutError', 'KeyError', 'ValueError', 'OSError', 'RuntimeError',
              'LookupError', 'AssertionError', 'BaseExc']
 
